@@ -245,16 +245,18 @@ impl File {
                 }
                 ast::Root::LigTable(b) => {
                     for node in b.children {
-                        let mut insert_lig_kern_instruction = |instruction, span| {
+                        let mut insert_lig_kern_instruction = |instruction, span: std::ops::Range<usize>| {
                             if file.lig_kern_program.instructions.len()
                                 < MAX_LIG_KERN_INSTRUCTIONS as usize
                             {
                                 file.lig_kern_program.instructions.push(instruction);
                             } else {
                                 // TODO: add a test for this case
+                                // Every warning needs an offset: the warnings are sorted
+                                // by offset after the file has been processed.
                                 errors.push(error::ParseWarning {
+                                    knuth_pltotf_offset: Some(span.end),
                                     span,
-                                    knuth_pltotf_offset: None,
                                     kind: ParseWarningKind::LigTableIsTooBig,
                                 });
                             }
